@@ -126,9 +126,10 @@ Theorem C03_rows_are_solutions_partial :
 Proof. exact pattern_sound_complete. Qed.
 Print Assumptions C03_rows_are_solutions_partial.
 
-(* the oracle is complete as well as sound (any pattern without OPTIONAL, no domain restriction) *)
+(* the oracle is complete as well as sound (any pattern without OPTIONAL clauses and without windows given by bindings
+   `"id"@[?lo,?hi]`, whose bounds are read from the row built so far and are not part of the declarative reading) *)
 Theorem C03_reference_complete :
-  forall glo gs cs mu, forallb (fun c => negb (c_opt c)) cs = true -> is_solution cs glo gs mu ->
+  forall glo gs cs mu, forallb (fun c => negb (c_opt c) && no_window c) cs = true -> is_solution cs glo gs mu ->
     exists r, In r (spec_solutions glo gs cs) /\ sub_equiv r mu.
 Proof. exact spec_solutions_complete. Qed.
 Print Assumptions C03_reference_complete.
